@@ -19,7 +19,11 @@ RULE = ('EconSpecs with 2-3 currency zones and at least one cross-zone link (gif
         'NET_NUMERAIRE == 0 without gold purchases; coefficient of each cross flow in the receiver\'s F equation == '
         'XR_sender/XR_receiver and -1 in the sender\'s; without external sector main() raises LogicError and no period is '
         'solved. Non-trivial: some cross rate != 1 in a checked period and the flow amount is non-zero. '
-        'Distinct: sha1 of the spec.')
+        'Distinct: sha1 of the spec. Second family (interleaved-construction): one generated order of '
+        'creating countries (several may share a currency, codes contain one another), the external sector, plain sectors, '
+        'registered flows and direct gold purchases (ExternalSector GOLD.SetGoldPurchases), so that a country may join a '
+        'currency that already has bookings; oracle: FX books balance in the numeraire and every zone is consistent once its FX '
+        'position is counted; non-trivial there: a zone moves and there is a cross-currency flow or a gold purchase.')
 ASSUMPTIONS = [
     'exchange rates are positive; the reference solver folds the cross-rate quotients exactly',
     'the coefficient of a flow is read from the affine form of the emitted F equation with all other names substituted',
